@@ -333,7 +333,7 @@ package kapacitor
 // A new group gets a group state object that did not exist before, holding the copy of the
 // node's expression that CopyReset returned -- never the node's own (shared) expression.
 //@ func (*WhereNode).newGroup
-//@   props C06
+//@   props C06 C10
 //@   requires n != nil && n.expression != nil
 //@   modifies nothing
 //@   ensures result != nil && fresh(result) && result.n == n && result.expr != nil
@@ -1323,10 +1323,19 @@ package kapacitor
 //@   ensures result.start == 0 && result.stop == 0 && result.size == 0 && result.count == 0 && result.nextEmit == ite(fillPeriod, period, every)
 
 // newWindow is given a validated definition (what pipeline.WindowNode.validate guarantees).
+// The first emission of a time window: one `every` after the first point -- or, with fillPeriod,
+// strictly after one full `period` -- and, when aligned, on a multiple of `every`: the unaligned time truncated to
+// `every` (plus one `every` with fillPeriod, so that a full period has passed).
 //@ func newWindowByTime
-//@   trusted
+//@   props C03
 //@   modifies nothing
-//@   ensures result != nil
+//@   ensures result != nil && fresh(result) && result.period == period && result.every == every && result.align == align && result.fillPeriod == fillPeriod
+//@   ensures [first-emit-plain] !align ==> result.nextEmit == t + time.Time(ite(fillPeriod, period, every))
+//@   ensures [first-emit-aligned] every > 0 && align && !fillPeriod ==> result.nextEmit == (t + time.Time(every)) - emod(t + time.Time(every), time.Time(every))
+//@   ensures [first-emit-aligned-full-period] every > 0 && align && fillPeriod ==> result.nextEmit ==
+//@       ite(emod(t + time.Time(period), time.Time(every)) == 0, t + time.Time(period) + time.Time(every), (t + time.Time(period)) - emod(t + time.Time(period), time.Time(every)) + time.Time(every))
+//@   ensures [first-emit-aligned-every] every > 0 && align && !fillPeriod ==> result.nextEmit <= t + time.Time(every) && result.nextEmit > t
+//@   ensures [first-emit-aligned-fill] every > 0 && align && fillPeriod ==> result.nextEmit > t + time.Time(period) && result.nextEmit <= t + time.Time(period) + time.Time(every)
 //@ func (*WindowNode).newWindow
 //@   props C03 C05
 //@   requires n != nil && n.w != nil && first != nil
